@@ -105,6 +105,39 @@ class _FailingCursor:
         return self._c.close()
 
 
+class _WouldBlock(BaseException):
+    """The second thread reached a lock that the first thread holds: it is parked until the lock is released."""
+
+
+class _SeamLock:
+    """Stands in for the store's threading.Lock while a flush is raced: the flushing thread takes and releases it as
+    usual; when the harness lets the second thread run inside the flush, an acquire() of the held lock parks that thread
+    (raises _WouldBlock, caught by the harness), while code that does not take the lock simply goes ahead - as it would."""
+
+    def __init__(self):
+        self.held = False
+        self.second_thread = False
+
+    def acquire(self, blocking=True, timeout=-1):
+        if self.held:
+            if self.second_thread:
+                raise _WouldBlock()
+            raise RuntimeError('harness: the flushing thread re-acquires its own lock')
+        self.held = True
+        return True
+
+    def release(self):
+        self.held = False
+
+    def locked(self):
+        return self.held
+
+    __enter__ = acquire
+
+    def __exit__(self, *a):
+        self.release()
+
+
 class _FailingConnection:
     """Stands in for the sqlite3 connection during one flush: the k-th statement raises 'disk full'."""
 
@@ -316,17 +349,30 @@ def execute(script):
                 st = {'done': False, 'nested': False}
                 orig_w = store.write_blocks_to_disk
 
-                def other_thread():
+                real_lock = store.lock
+                seam_lock = store.lock = _SeamLock()
+
+                def other_thread(inside):
+                    # the second thread hands its block over; inside the flush it is parked if it meets the held lock
                     if st['done']:
                         return
-                    st['done'] = True
-                    hand(objs[nb])
+                    seam_lock.second_thread = inside
+                    try:
+                        hand(objs[nb])
+                        st['done'] = True
+                        if inside:
+                            st['nested'] = True
+                    except _WouldBlock:
+                        res.bump('probe:other_thread_parked_at_the_store_lock')
+                    finally:
+                        seam_lock.second_thread = False
 
                 def seam(blocks):
+                    # the second thread gets its turn while the write is in progress (before and after the SQL)
+                    if op.get('pick', 0) % 2:
+                        other_thread(True)
                     r = orig_w(blocks)
-                    if not st['done'] and not store.lock.locked():
-                        st['nested'] = True
-                        other_thread()
+                    other_thread(True)
                     return r
                 store.write_blocks_to_disk = seam
                 try:
@@ -336,7 +382,8 @@ def execute(script):
                     break
                 finally:
                     del store.write_blocks_to_disk
-                other_thread()
+                    store.lock = real_lock
+                other_thread(False)         # if it was parked it runs now
                 for b in buffered:
                     if b not in flushed:
                         flushed.append(b)
